@@ -67,7 +67,19 @@ theorem potential_le_cost (edge : V → V → Prop) (w : V → V → ℚ) (d : V
     (hfeas : ∀ u v, edge u v → d v ≤ d u + w u v) :
     ∀ (p : List V) (u : V), IsWalk edge (u :: p) →
       d ((u :: p).getLast (by simp)) ≤ d u + cost w (u :: p) := by
-  sorry
+  intro p
+  induction p with
+  | nil => intro u _; simp [cost]
+  | cons v rest ih =>
+    intro u hw
+    obtain ⟨huv, hrest⟩ := hw
+    have h1 := ih v hrest
+    have h2 := hfeas u v huv
+    have : (u :: v :: rest).getLast (by simp) = (v :: rest).getLast (by simp) := by
+      simp [List.getLast_cons]
+    rw [this]
+    simp only [cost]
+    linarith
 
 /-- **C10 (certificate)**: a feasible potential that is tight on the returned path proves that no
 other walk between the same end points is cheaper. -/
@@ -79,7 +91,41 @@ theorem potential_optimal (edge : V → V → Prop) (w : V → V → ℚ) (d : V
     (hsame : (src :: p).getLast (by simp) = (src :: pstar).getLast (by simp))
     (htight : cost w (src :: pstar) = d ((src :: pstar).getLast (by simp))) :
     cost w (src :: pstar) ≤ cost w (src :: p) := by
-  sorry
+  have h := potential_le_cost edge w d hfeas p src hp
+  rw [hsame, hsrc] at h
+  linarith
+
+theorem head_le_bottleneck (E : V → ℚ) (a : V) (q : List V) : E a ≤ bottleneck E (a :: q) := by
+  cases q with
+  | nil => simp [bottleneck]
+  | cons c q => simp [bottleneck]
+
+theorem bottleneck_cons_cons (E : V → ℚ) (a b : V) (q : List V) :
+    bottleneck E (a :: b :: q) = max (E a) (bottleneck E (b :: q)) := by
+  simp [bottleneck]
+
+/-- general form: the potential of the end point is at most the larger of the start potential and the
+bottleneck of the walk -/
+theorem bottleneck_le_max (edge : V → V → Prop) (E : V → ℚ) (d : V → ℚ)
+    (hfeas : ∀ u v, edge u v → d v ≤ max (d u) (E v)) :
+    ∀ (q : List V) (a : V), IsWalk edge (a :: q) →
+      d ((a :: q).getLast (by simp)) ≤ max (d a) (bottleneck E (a :: q)) := by
+  intro q
+  induction q with
+  | nil => intro a _; simp [bottleneck]
+  | cons b q ihq =>
+    intro a haq
+    obtain ⟨hab, hq⟩ := haq
+    have e1 : (a :: b :: q).getLast (by simp) = (b :: q).getLast (by simp) := by
+      simp [List.getLast_cons]
+    rw [e1, bottleneck_cons_cons]
+    have h3 := ihq b hq
+    have h4 := hfeas a b hab
+    have h5 : E b ≤ bottleneck E (b :: q) := head_le_bottleneck E b q
+    refine le_trans h3 (max_le ?_ ?_)
+    · refine le_trans h4 (max_le (le_max_left _ _) ?_)
+      exact le_trans h5 (le_trans (le_max_right _ _) (le_max_right _ _))
+    · exact le_trans (le_max_right _ _) (le_max_right _ _)
 
 /-- bottleneck version: with `d v ≤ max (d u) (E v)` on every edge and `d src = E src`, the potential
 of the end point is at most the largest voxel energy on any walk -/
@@ -87,14 +133,25 @@ theorem bottleneck_le (edge : V → V → Prop) (E : V → ℚ) (d : V → ℚ)
     (hfeas : ∀ u v, edge u v → d v ≤ max (d u) (E v)) :
     ∀ (p : List V) (u : V), IsWalk edge (u :: p) → d u ≤ E u →
       d ((u :: p).getLast (by simp)) ≤ bottleneck E (u :: p) := by
-  sorry
+  intro p u hw hu
+  refine le_trans (bottleneck_le_max edge E d hfeas p u hw) (max_le ?_ (le_refl _))
+  exact le_trans hu (head_le_bottleneck E u p)
 
 /-- **C10 (reported total energy)**: the edge-weight sum of a walk is its node-energy sum minus
 half the end-point energies. -/
 theorem edge_sum_eq_node_sum (E : V → ℚ) (u : V) (p : List V) :
     cost (fun a b => (E a + E b) / 2) (u :: p)
       = ((u :: p).map E).sum - (E u + E ((u :: p).getLast (by simp))) / 2 := by
-  sorry
+  induction p generalizing u with
+  | nil => simp [cost]
+  | cons v rest ih =>
+    have this : (u :: v :: rest).getLast (by simp) = (v :: rest).getLast (by simp) := by
+      simp [List.getLast_cons]
+    rw [this]
+    have h := ih v
+    simp only [cost, List.map_cons, List.sum_cons] at h ⊢
+    rw [h]
+    ring
 
 end abstract
 
@@ -106,6 +163,172 @@ def pathCost (g : Grid) : Crit → List Vox → ℚ
   | .steps, p => (p.length - 1 : Nat)
   | .bottleneck, p => g.maxEnergy p
 
+theorem pmod_cast (a : Int) (n : Nat) (hn : 0 < n) : ((pmod a n : Nat) : Int) = a % (n : Int) := by
+  unfold pmod
+  exact Int.toNat_of_nonneg (Int.emod_nonneg _ (by omega))
+
+theorem pmod_spec (a : Int) (n : Nat) (hn : 0 < n) :
+    0 ≤ ((pmod a n : Nat) : Int) ∧ ((pmod a n : Nat) : Int) < n ∧ (n : Int) ∣ (a - (pmod a n : Nat)) := by
+  rw [pmod_cast a n hn]
+  refine ⟨Int.emod_nonneg _ (by omega), Int.emod_lt_of_pos _ (by omega), ?_⟩
+  exact Int.dvd_self_sub_emod
+
+theorem pmod_back (a m : Int) (n : Nat) (h0 : 0 ≤ a) (h1 : a < n) :
+    ((pmod (((pmod (a + m) n : Nat) : Int) + -m) n : Nat) : Int) = a := by
+  have hn : 0 < n := by omega
+  rw [pmod_cast _ _ hn, pmod_cast _ _ hn, Int.emod_add_emod]
+  have e : a + m + -m = a := by omega
+  rw [e, Int.emod_eq_of_lt h0 h1]
+
+theorem inside_iff (g : Grid) (v : Vox) :
+    g.inside v = true ↔
+      (0 ≤ v.1 ∧ v.1 < g.nx) ∧ (0 ≤ v.2.1 ∧ v.2.1 < g.ny) ∧ (0 ≤ v.2.2 ∧ v.2.2 < g.nz) := by
+  simp only [Grid.inside, Bool.and_eq_true, decide_eq_true_eq]
+  constructor
+  · rintro ⟨⟨⟨⟨⟨a, b⟩, c⟩, d⟩, e⟩, f⟩; exact ⟨⟨a, b⟩, ⟨c, d⟩, ⟨e, f⟩⟩
+  · rintro ⟨⟨a, b⟩, ⟨c, d⟩, ⟨e, f⟩⟩; exact ⟨⟨⟨⟨⟨a, b⟩, c⟩, d⟩, e⟩, f⟩
+
+theorem isNode_inside (g : Grid) (v : Vox) (h : g.isNode v = true) : g.inside v = true := by
+  simp only [Grid.isNode, Bool.and_eq_true] at h
+  exact h.1.1
+
+/-- C-order index arithmetic -/
+theorem idx_arith (nx ny nz a b c : Nat) (ha : a < nx) (hb : b < ny) (hc : c < nz) :
+    ((a * ny + b) * nz + c) / nz / ny = a ∧ ((a * ny + b) * nz + c) / nz % ny = b ∧
+    ((a * ny + b) * nz + c) % nz = c ∧ (a * ny + b) * nz + c < nx * ny * nz := by
+  have hnz : 0 < nz := by omega
+  have hny : 0 < ny := by omega
+  have h1 : ((a * ny + b) * nz + c) / nz = a * ny + b := by
+    rw [Nat.add_comm, Nat.add_mul_div_right _ _ hnz, Nat.div_eq_of_lt hc, Nat.zero_add]
+  have h2 : ((a * ny + b) * nz + c) % nz = c := by
+    rw [Nat.add_comm, Nat.add_mul_mod_self_right, Nat.mod_eq_of_lt hc]
+  have h3 : (a * ny + b) / ny = a := by
+    rw [Nat.add_comm, Nat.add_mul_div_right _ _ hny, Nat.div_eq_of_lt hb, Nat.zero_add]
+  have h4 : (a * ny + b) % ny = b := by
+    rw [Nat.add_comm, Nat.add_mul_mod_self_right, Nat.mod_eq_of_lt hb]
+  refine ⟨by rw [h1, h3], by rw [h1, h4], h2, ?_⟩
+  have h5 : a * ny + b + 1 ≤ nx * ny := by
+    have h : (a + 1) * ny ≤ nx * ny := Nat.mul_le_mul_right _ ha
+    rw [Nat.add_mul] at h
+    omega
+  have h6 : (a * ny + b + 1) * nz ≤ nx * ny * nz := Nat.mul_le_mul_right _ h5
+  rw [Nat.add_mul] at h6
+  omega
+
+/-- `vox` inverts `idx` on the grid, and `idx` stays below `size` -/
+theorem vox_idx (g : Grid) (v : Vox) (h : g.inside v = true) :
+    g.vox (g.idx v) = v ∧ g.idx v < g.size := by
+  obtain ⟨⟨a0, a1⟩, ⟨b0, b1⟩, ⟨c0, c1⟩⟩ := (inside_iff g v).mp h
+  have ea := Int.toNat_of_nonneg a0
+  have eb := Int.toNat_of_nonneg b0
+  have ec := Int.toNat_of_nonneg c0
+  have ha : v.1.toNat < g.nx := by omega
+  have hb : v.2.1.toNat < g.ny := by omega
+  have hc : v.2.2.toNat < g.nz := by omega
+  obtain ⟨k1, k2, k3, k4⟩ := idx_arith g.nx g.ny g.nz _ _ _ ha hb hc
+  refine ⟨?_, k4⟩
+  unfold Grid.vox Grid.idx
+  rw [k1, k2, k3, ea, eb, ec]
+
+/-- stepping back along the negated move returns to a voxel of the grid -/
+theorem step_neg (g : Grid) (v m : Vox) (h : g.inside v = true) :
+    g.step (g.step v m) (-m.1, -m.2.1, -m.2.2) = v := by
+  obtain ⟨⟨a0, a1⟩, ⟨b0, b1⟩, ⟨c0, c1⟩⟩ := (inside_iff g v).mp h
+  have e1 := pmod_back v.1 m.1 g.nx a0 a1
+  have e2 := pmod_back v.2.1 m.2.1 g.ny b0 b1
+  have e3 := pmod_back v.2.2 m.2.2 g.nz c0 c1
+  show (((pmod (((pmod (v.1 + m.1) g.nx : Nat) : Int) + -m.1) g.nx : Nat) : Int),
+        ((pmod (((pmod (v.2.1 + m.2.1) g.ny : Nat) : Int) + -m.2.1) g.ny : Nat) : Int),
+        ((pmod (((pmod (v.2.2 + m.2.2) g.nz : Nat) : Int) + -m.2.2) g.nz : Nat) : Int)) = v
+  rw [e1, e2, e3]
+
+theorem moves_neg (g : Grid) (m : Vox) (hm : m ∈ g.moves) : (-m.1, -m.2.1, -m.2.2) ∈ g.moves := by
+  unfold Grid.moves at hm ⊢
+  split at hm
+  · rename_i hd; rw [if_pos hd]; exact moves_neg_closed.2 m hm
+  · rename_i hd; rw [if_neg hd]; exact moves_neg_closed.1 m hm
+
+/-- every edge is witnessed by a forward step (the move sets are closed under negation) -/
+theorem adj_forward (g : Grid) (u v : Vox) (h : g.adj u v = true) :
+    ∃ m ∈ g.moves, g.step u m = v ∧ g.isNode u = true ∧ g.isNode v = true := by
+  simp only [Grid.adj, Bool.and_eq_true, Bool.or_eq_true, List.any_eq_true, beq_iff_eq] at h
+  obtain ⟨⟨hu, hv⟩, h | h⟩ := h
+  · obtain ⟨m, hm, e⟩ := h
+    exact ⟨m, hm, e, hu, hv⟩
+  · obtain ⟨m, hm, e⟩ := h
+    refine ⟨_, moves_neg g m hm, ?_, hu, hv⟩
+    rw [← e]
+    exact step_neg g v m (isNode_inside g v hv)
+
+/-- what `feasible` checks for one forward edge -/
+theorem feasible_edge (g : Grid) (c : Crit) (d : Array (Option ℚ)) (hf : g.feasible c d = true)
+    (u m : Vox) (du : ℚ) (hu : g.isNode u = true) (hdu : d.getD (g.idx u) none = some du)
+    (hm : m ∈ g.moves) (hv : g.isNode (g.step u m) = true) :
+    ∃ dv, d.getD (g.idx (g.step u m)) none = some dv ∧ dv ≤ g.extend c du u (g.step u m) := by
+  obtain ⟨e1, e2⟩ := vox_idx g u (isNode_inside g u hu)
+  unfold Grid.feasible at hf
+  rw [List.all_eq_true] at hf
+  have h := hf (g.idx u) (List.mem_range.mpr e2)
+  simp only [hdu, e1] at h
+  rw [List.all_eq_true] at h
+  have h' := h m hm
+  simp only [hv, if_true] at h'
+  cases hdv : d.getD (g.idx (g.step u m)) none with
+  | none => rw [hdv] at h'; exact absurd h' (by simp)
+  | some dv =>
+    rw [hdv] at h'
+    exact ⟨dv, rfl, by simpa using h'⟩
+
+theorem foldl_max_mono (g : Grid) (p : List Vox) (a b : ℚ) (h : a ≤ b) :
+    p.foldl (fun m v => max m (g.energy v)) a ≤ p.foldl (fun m v => max m (g.energy v)) b := by
+  induction p generalizing a b with
+  | nil => simpa using h
+  | cons v rest ih =>
+    simp only [List.foldl_cons]
+    exact ih _ _ (max_le_max h (le_refl _))
+
+/-- accumulated bound along a path starting with potential `du` -/
+def accBound (g : Grid) : Crit → ℚ → Vox → List Vox → ℚ
+  | .sum, du, u, p => du + g.edgeCost (u :: p)
+  | .steps, du, _, p => du + (p.length : ℚ)
+  | .bottleneck, du, _, p => p.foldl (fun m v => max m (g.energy v)) du
+
+theorem feasible_acc (g : Grid) (c : Crit) (d : Array (Option ℚ)) (hf : g.feasible c d = true) :
+    ∀ (p : List Vox) (u : Vox) (du : ℚ), d.getD (g.idx u) none = some du →
+      g.validPath (u :: p) = true →
+      ∃ x, d.getD (g.idx ((u :: p).getLast (by simp))) none = some x ∧ x ≤ accBound g c du u p := by
+  intro p
+  induction p with
+  | nil =>
+    intro u du hdu _
+    refine ⟨du, by simpa using hdu, ?_⟩
+    cases c <;> simp [accBound, Grid.edgeCost]
+  | cons v rest ih =>
+    intro u du hdu hp
+    simp only [Grid.validPath, Bool.and_eq_true] at hp
+    obtain ⟨hadj, hrest⟩ := hp
+    obtain ⟨m, hm, hstep, hu, hv⟩ := adj_forward g u v hadj
+    obtain ⟨dv, hdv, hle⟩ := feasible_edge g c d hf u m du hu hdu hm (by rw [hstep]; exact hv)
+    rw [hstep] at hdv hle
+    obtain ⟨x, hx, hxle⟩ := ih v dv hdv hrest
+    have e : (u :: v :: rest).getLast (by simp) = (v :: rest).getLast (by simp) := by
+      simp [List.getLast_cons]
+    rw [e]
+    refine ⟨x, hx, le_trans hxle ?_⟩
+    cases c with
+    | sum =>
+      simp only [accBound, Grid.extend] at hle ⊢
+      have e2 : g.edgeCost (u :: v :: rest) = g.weight u v + g.edgeCost (v :: rest) := rfl
+      rw [e2]
+      linarith
+    | steps =>
+      simp only [accBound, Grid.extend, List.length_cons] at hle ⊢
+      push_cast
+      linarith
+    | bottleneck =>
+      simp only [accBound, Grid.extend, List.foldl_cons] at hle ⊢
+      exact foldl_max_mono g rest _ _ hle
+
 /-- **C10 (the executable check is a certificate)**: if `Grid.feasible` accepts the potential `d`
 and `d` has the initial value at `src`, then for every valid path from `src` the potential of its
 end point is defined and is a lower bound of the path's cost. -/
@@ -114,7 +337,14 @@ theorem feasible_lower_bound (g : Grid) (c : Crit) (d : Array (Option ℚ)) (hsz
     (hsrc : d.getD (g.idx src) none = some (g.initial c src))
     (p : List Vox) (hp : g.validPath (src :: p) = true) :
     ∃ x, d.getD (g.idx ((src :: p).getLast (by simp))) none = some x ∧ x ≤ pathCost g c (src :: p) := by
-  sorry
+  -- `hsz` is not needed: every array access is `getD`
+  have _ := hsz
+  obtain ⟨x, hx, hle⟩ := feasible_acc g c d hf p src _ hsrc hp
+  refine ⟨x, hx, le_trans hle (le_of_eq ?_)⟩
+  cases c with
+  | sum => simp [accBound, pathCost, Grid.initial]
+  | steps => simp [accBound, pathCost, Grid.initial]
+  | bottleneck => simp [accBound, pathCost, Grid.initial, Grid.maxEnergy]
 
 /-- **C10 (wrapped coordinates)**: each wrapped coordinate lies inside the grid and is congruent to
 the original one modulo that axis' dimension. -/
@@ -123,12 +353,29 @@ theorem wrapSite_spec (dims : Nat × Nat × Nat) (hx : 0 < dims.1) (hy : 0 < dim
     (0 ≤ w.1 ∧ w.1 < dims.1 ∧ (dims.1 : Int) ∣ (v.1 - w.1)) ∧
     (0 ≤ w.2.1 ∧ w.2.1 < dims.2.1 ∧ (dims.2.1 : Int) ∣ (v.2.1 - w.2.1)) ∧
     (0 ≤ w.2.2 ∧ w.2.2 < dims.2.2 ∧ (dims.2.2 : Int) ∣ (v.2.2 - w.2.2)) := by
-  sorry
+  exact ⟨pmod_spec v.1 dims.1 hx, pmod_spec v.2.1 dims.2.1 hy, pmod_spec v.2.2 dims.2.2 hz⟩
 
 theorem fracSite_in_unit (dims : Nat × Nat × Nat) (hx : 0 < dims.1) (hy : 0 < dims.2.1) (hz : 0 < dims.2.2) (v : Vox) :
     let f := fracSite dims v
     0 < f.x ∧ f.x < 1 ∧ 0 < f.y ∧ f.y < 1 ∧ 0 < f.z ∧ f.z < 1 := by
-  sorry
+  have key : ∀ (a : Int) (n : Nat), 0 < n →
+      0 < ((((pmod a n : Nat) : Int) : ℚ) + 1/2) / (n : ℚ) ∧
+      ((((pmod a n : Nat) : Int) : ℚ) + 1/2) / (n : ℚ) < 1 := by
+    intro a n hn
+    obtain ⟨h0, h1, _⟩ := pmod_spec a n hn
+    have hnq : (0 : ℚ) < (n : ℚ) := by exact_mod_cast hn
+    have h0q : (0 : ℚ) ≤ (((pmod a n : Nat) : Int) : ℚ) := by exact_mod_cast h0
+    have h1' : ((pmod a n : Nat) : Int) + 1 ≤ (n : Int) := by omega
+    have h1q : (((pmod a n : Nat) : Int) : ℚ) + 1 ≤ (n : ℚ) := by exact_mod_cast h1'
+    constructor
+    · apply div_pos _ hnq
+      linarith
+    · rw [div_lt_one hnq]
+      linarith
+  obtain ⟨a1, a2⟩ := key v.1 dims.1 hx
+  obtain ⟨b1, b2⟩ := key v.2.1 dims.2.1 hy
+  obtain ⟨c1, c2⟩ := key v.2.2 dims.2.2 hz
+  exact ⟨a1, a2, b1, b2, c1, c2⟩
 
 /-- defect D6 (repaired): wrapping y and z by the x dimension leaves the grid or hits the wrong voxel -/
 theorem wrapSiteXdim_counterexample :
